@@ -253,6 +253,10 @@ def materialise(root: Path, files: dict[str, str]) -> None:
     for name, src in files.items():
         p = root / name
         p.parent.mkdir(parents=True, exist_ok=True)
+        if src.startswith("@symlink:"):
+            import os
+            os.symlink(src[len("@symlink:"):], p, target_is_directory=True)
+            continue
         p.write_text(src)
 
 
